@@ -59,6 +59,18 @@ def worklist_programs(dev):
         {"op": "transfer", "src": Sx, "sw": L([(0, 4), (0, 0), (0, 2)]), "dst": P, "dw": L([(1, 0), (2, 0), (0, 0)]),
          "vols": L([1, 3, 8]), "label": "back", "wash": 3, "pby": "destination"},
     ])
+    # the same (source, destination) pair listed several times, with other triples in between
+    prog("repeated-pair", [
+        {"op": "transfer", "src": T, "sw": L([(0, 0), (1, 1), (0, 0), (0, 0)]), "dst": P, "dw": L([(1, 1), (0, 2), (1, 1), (1, 1)]),
+         "vols": L([3, 2, 1, 3]), "label": "repeat", "wash": 1, "pby": "auto"},
+        {"op": "transfer", "src": P, "sw": L([(1, 1), (1, 1)]), "dst": Sx, "dw": L([(0, 3), (0, 3)]), "vols": L([2, 4]), "label": "again", "wash": "reuse", "pby": "source"},
+    ])
+    # a well that is destination of an earlier and source of a later triple of the same call (one column group)
+    prog("chain-in-one-call", [
+        {"op": "transfer", "src": P, "sw": L([(0, 0), (1, 0)]), "dst": P, "dw": L([(1, 0), (2, 0)]), "vols": S(3), "label": "chain", "wash": 1, "pby": "source"},
+        {"op": "transfer", "src": T, "sw": L([(0, 0)]), "dst": P, "dw": L([(0, 3)]), "vols": S(4), "label": "prep", "wash": 1},
+        {"op": "transfer", "src": P, "sw": L([(2, 3), (0, 3), (1, 3)]), "dst": P, "dw": L([(0, 3), (1, 3), (1, 3)]), "vols": L([6, 5, 2]), "label": "chain2", "wash": 1, "pby": "source"},
+    ])
     # 2-D, non-square arguments whose row-major and column-major readings differ; broadcast forms
     prog("two-d", [
         {"op": "dispense", "lw": P, "wells": M([[(0, 0), (0, 1), (0, 2)], [(1, 0), (1, 1), (1, 2)]]),
@@ -134,6 +146,20 @@ def limit_programs(dev):
             {"op": "remove", "lw": T, "wells": L([(0, 0), (1, 0), (2, 0)]), "vols": S(4), "label": None},  # 12 - 12 = 0 < 1: third underflows
             {"op": "remove", "lw": T, "wells": L([(2, 0)]), "vols": S(BIG), "label": None},
         ], unit=unit)
+    big = [gen.mk_plate("waste", 1, 2, 100000, 25000000, [24999000, 100500]), gen.mk_trough("res", 8, 1, 1000000, 250000000, [249999990])]
+    for d in (dev,):
+        h = _hdr("limits/large-vessels", d, big, wlmax=1000, flags={"comp": False, "norm": False, "robot": False})
+        h["ops"] = [
+            {"op": "add", "lw": 0, "wells": L([(0, 0)]), "vols": S(1000), "label": "to the limit"},
+            {"op": "add", "lw": 0, "wells": L([(0, 0)]), "vols": S(2), "label": "2 beyond 25e6"},
+            {"op": "dispense", "lw": 1, "wells": L([(3, 0)]), "vols": S(10), "label": "to the limit"},
+            {"op": "dispense", "lw": 1, "wells": L([(5, 0)]), "vols": S(1), "label": "1 beyond 250e6"},
+            {"op": "remove", "lw": 0, "wells": L([(0, 1)]), "vols": S(500), "label": "to min"},
+            {"op": "aspirate", "lw": 0, "wells": L([(0, 1)]), "vols": S(1), "label": "1 below min 1e5"},
+            {"op": "transfer", "src": 0, "sw": L([(0, 0)]), "dst": 1, "dw": L([(0, 0)]), "vols": S(1), "label": "overflow by 1", "wash": 1},
+            {"op": "transfer", "src": 0, "sw": L([(0, 1)]), "dst": 0, "dw": L([(0, 0)]), "vols": S(1), "label": "underflow by 1", "wash": 1},
+        ]
+        progs.append(h)
     prog("worklist", [
         {"op": "dispense", "lw": P, "wells": L([(0, 1), (1, 1)]), "vols": L([5, 10]), "label": "fill"},   # both exactly to max
         {"op": "dispense", "lw": P, "wells": L([(1, 1)]), "vols": S(1), "label": None},                   # overflow
@@ -355,6 +381,8 @@ def split_programs(dev):
         ("quarter", Fraction(1, 4), 3, [3, 4, 5, 6, 7, 12]),
         ("integer", Fraction(1), 950, [950, 951, 1900, 1901, 2850, 0]),
         ("halfint", Fraction(1, 2), 5, [5, 6, 10, 11, 15, 16]),
+        ("intmax-fractional", Fraction(1, 4), 8, [9, 17, 33, 8, 16, 35]),      # max_volume 2 uL, volumes 2.25, 4.25, 8.25 ...
+        ("intmax-half", Fraction(1, 2), 1900, [1901, 3801, 5703, 1900, 3800, 2001]),  # max_volume 950 uL, volumes 950.5, 1900.5, ...
     ]:
         for pby in ("source", "destination"):
             h = _hdr(f"split/{name}-{pby}", dev, lw(20 * M), wlmax=M, unit=unit, flags={"comp": False, "norm": False})
